@@ -228,6 +228,8 @@ type OblResult struct {
 	Queries     int
 	LinQ, NLQ   int
 	SolverS     float64
+	Raced       int            // queries not answered by the primary solver within 0.4 s and raced on the helper solvers
+	HelperWins  map[string]int // races decided by a helper solver, by solver
 	WallS       float64
 	Statuses    map[string]int
 	Reached     map[string]int
@@ -296,6 +298,13 @@ func runObligation(l *loaded, ob Obligation, tier int, seed int64, known map[str
 	res.Queries = ex.solver.Queries + ex.inc.Queries
 	res.LinQ, res.NLQ = ex.LinQueries, ex.NLQueries
 	res.SolverS = (ex.solver.Time + ex.inc.Time).Seconds()
+	res.Raced = ex.solver.Raced + ex.inc.Raced
+	res.HelperWins = map[string]int{}
+	for _, sv := range []*Solver{ex.solver, ex.inc} {
+		for k, v := range sv.HelperWins {
+			res.HelperWins[k] += v
+		}
+	}
 	res.Statuses, res.Reached, res.Discharged, res.Unknown = ex.Statuses, ex.Reached, ex.Discharged, ex.Unknown
 	res.UnknownFork = ex.UnknownForks
 	res.Unsupported = ex.unsupportedSeen
@@ -520,8 +529,8 @@ func cmdCheck(args []string) int {
 			defer func() { <-sem }()
 			results[i] = runObligation(l, ob, tier, seed, known, verbose)
 			r := results[i]
-			fmt.Printf("[%s] %s: paths=%d queries=%d (lin %d / nl %d) solver=%.1fs wall=%.1fs statuses=%v violations=%d unknown=%v\n",
-				ob.Name, ob.Harness, r.Paths, r.Queries, r.LinQ, r.NLQ, r.SolverS, r.WallS, r.Statuses, len(r.Violations), r.Unknown)
+			fmt.Printf("[%s] %s: paths=%d queries=%d (lin %d / nl %d) solver=%.1fs wall=%.1fs statuses=%v violations=%d unknown=%v raced=%d helper-wins=%v\n",
+				ob.Name, ob.Harness, r.Paths, r.Queries, r.LinQ, r.NLQ, r.SolverS, r.WallS, r.Statuses, len(r.Violations), r.Unknown, r.Raced, r.HelperWins)
 		}(i, ob)
 	}
 	wg.Wait()
@@ -740,7 +749,7 @@ func report(prop, tier string, seed int64, results []*OblResult, knownAll map[st
 		smp := map[string]interface{}{
 			"obligation": r.Ob.Name, "harness": r.Ob.Pkg + "." + r.Ob.Harness, "what": r.Ob.Desc, "bounds": r.Ob.Bounds,
 			"paths": r.Paths, "instructions": r.Instrs, "queries": r.Queries, "queries_incremental": r.LinQ, "queries_one_shot": r.NLQ,
-			"solver_s": round2(r.SolverS), "wall_s": round2(r.WallS), "path_statuses": r.Statuses,
+			"solver_s": round2(r.SolverS), "wall_s": round2(r.WallS), "path_statuses": r.Statuses, "portfolio_races": r.Raced, "races_won_by_helper": r.HelperWins,
 			"assertions_discharged": r.Discharged, "reached": r.Reached, "abstract_arithmetic": r.Ob.Abstract,
 			"native_validated_samples": r.Validated, "inconclusive": inconclusive,
 			"confirmed_violations": len(r.Confirmed), "known_finding_hits": len(r.KnownHits),
